@@ -7,6 +7,7 @@ pub mod explore;
 pub mod fam_atomic;
 pub mod fam_lock;
 pub mod fam_mpsc;
+pub mod fam_sem;
 pub mod fam_sync;
 pub mod fam_thread;
 pub mod prog;
